@@ -44,6 +44,7 @@ type scGroupSD struct {
 	failPing  map[string]int // "from>to" -> number of calls that will fail
 	failRebal map[string]int
 	electAt   int64
+	clients   []*simClient // every rpc client ever created, for link breaks
 }
 
 func init() {
@@ -101,6 +102,7 @@ func (c *simClient) Register() error {
 	w.mu.Unlock()
 	// Handler.Register: the leader creates a client towards the follower and adds it as a service
 	back := &simClient{s: c.s, w: w, from: c.to, to: c.from, connected: true}
+	c.s.clients = append(c.s.clients, back)
 	c.to.sd.Add(servicediscovery.NewService(back, c.from.name, c.from.joinTime))
 	w.jl(&journal.Ev{K: journal.KNote, Vb: -1, S: "registered", M: c.from.id, I: int64(c.to.id)})
 	return nil
@@ -204,6 +206,7 @@ func (s *scGroupSD) becomeFollower(w *World, n, leader *sdNode) {
 	n.sd.RemoveAll()
 	n.sd.RemoveLeader()
 	lc := &simClient{s: s, w: w, from: n, to: leader, connected: true}
+	s.clients = append(s.clients, lc)
 	n.sd.AssignLeader(servicediscovery.NewService(lc, leader.name, leader.joinTime))
 	_ = lc.Register()
 }
@@ -296,6 +299,19 @@ func (s *scGroupSD) Actions(w *World) []Action {
 			acts = append(acts, Action{ID: "pingfail|" + lk, W: 5, Do: func() { s.failPing[lk]++; s.changes++; s.touch(w) }})
 			acts = append(acts, Action{ID: "pingfail|" + fk, W: 5, Do: func() { s.failPing[fk]++; s.changes++; s.touch(w) }})
 			acts = append(acts, Action{ID: "rebalfail|" + lk, W: 5, Do: func() { s.failRebal[lk]++; s.changes++; s.touch(w) }})
+			acts = append(acts, Action{ID: "linkbreak|" + lk, W: 6, Do: func() {
+				// a network blip between two live processes: the rpc connections in both directions are dead until re-dialled
+				w.mu.Lock()
+				for _, cl := range s.clients {
+					if cl.connected && (cl.from == n && cl.to == s.leader || cl.from == s.leader && cl.to == n) {
+						cl.connected = false
+					}
+				}
+				w.mu.Unlock()
+				w.fault("rpc-link-broken", lk)
+				s.changes++
+				s.touch(w)
+			}})
 		}
 	}
 	return acts
